@@ -167,7 +167,10 @@ func c11InitFirst(c *Ctx) {
 			}
 			found = true
 			for _, e := range an.CondEdges(initFn) {
-				if empty, k := an.EmptinessFact(e.Fact, func(v ssa.Value) bool { cc := an.AllExtractOf(v, 2); return cc != nil && cc == ssa.CallInstruction(call) }); !k || empty {
+				if empty, k := an.EmptinessFact(e.Fact, func(v ssa.Value) bool {
+					cc := an.AllExtractOf(v, 2)
+					return cc != nil && cc == ssa.CallInstruction(call)
+				}); !k || empty {
 					continue
 				}
 				bad := ""
@@ -449,15 +452,17 @@ func c11TerminalFrame(c *Ctx) {
 	c.R.Check(bad == "", "subscribe$go/epilogue-xor", c.pos(epi.Pos()), "exactly one of complete / error on every exit", bad)
 	// epilogue removes the id and cancels
 	del, cancel := false, false
-	for _, b := range epi.Blocks {
-		for _, in := range b.Instrs {
-			if call, ok := in.(*ssa.Call); ok {
-				if bi, ok := call.Call.Value.(*ssa.Builtin); ok && bi.Name() == "delete" {
-					del = true
-				}
-				if call.Call.StaticCallee() == nil && !call.Call.IsInvoke() {
-					if _, isB := call.Call.Value.(*ssa.Builtin); !isB && strings.HasSuffix(call.Call.Value.Type().String(), "context.CancelFunc") {
-						cancel = true
+	for _, scope := range an.InlineScope(epi) {
+		for _, b := range scope.Blocks {
+			for _, in := range b.Instrs {
+				if call, ok := in.(*ssa.Call); ok {
+					if bi, ok := call.Call.Value.(*ssa.Builtin); ok && bi.Name() == "delete" {
+						del = true
+					}
+					if call.Call.StaticCallee() == nil && !call.Call.IsInvoke() {
+						if _, isB := call.Call.Value.(*ssa.Builtin); !isB && strings.HasSuffix(call.Call.Value.Type().String(), "context.CancelFunc") {
+							cancel = true
+						}
 					}
 				}
 			}
